@@ -1,13 +1,38 @@
 //! Shared condition alphabets.
-use crate::drive::{H1, P1, P2, PH1, PH2, coin_id, cond};
+use crate::drive::{H1, coin_id, cond};
 use crate::refcond::Env;
 use crate::sx::{Sx, sha256};
 
 /// the interaction alphabet: conditions that are well-formed or borderline, for spends A/B/C/D
+/// identities the interaction letters refer to
+#[derive(Clone, Copy)]
+pub struct Ids {
+    /// coin A: the spend that carries the letters
+    pub a: ([u8; 32], [u8; 32], u64),
+    /// coin C: a sibling (different parent)
+    pub c: ([u8; 32], [u8; 32], u64),
+    /// coin B: child of A (created by A's CREATE_COIN letter)
+    pub b_ph: [u8; 32],
+    pub b_amount: u64,
+}
+
+impl Ids {
+    pub fn default_ids() -> Ids {
+        Ids { a: (crate::drive::P1, crate::drive::PH1, 5), c: (crate::drive::P2, crate::drive::PH1, 5), b_ph: crate::drive::PH2, b_amount: 3 }
+    }
+}
+
 pub fn sigma2(env: &Env) -> Vec<(String, Sx)> {
-    let a_id = coin_id(&P1, &PH1, 5);
-    let c_id = coin_id(&P2, &PH1, 5);
-    let b_id = coin_id(&a_id, &PH2, 3);
+    sigma2_for(env, &Ids::default_ids())
+}
+
+pub fn sigma2_for(env: &Env, ids: &Ids) -> Vec<(String, Sx)> {
+    #[allow(non_snake_case)]
+    let (P1, PH1, P2, PH2) = (ids.a.0, ids.a.1, ids.c.0, ids.b_ph);
+    let a_amount = ids.a.2;
+    let a_id = coin_id(&P1, &PH1, a_amount);
+    let c_id = coin_id(&P2, &ids.c.1, ids.c.2);
+    let b_id = coin_id(&a_id, &PH2, ids.b_amount);
     let pk = Sx::Atom(env.valid_keys.iter().next().unwrap().clone());
     let ann = |id: &[u8], m: &[u8]| Sx::atom(&sha256(&[id, m]));
     let mut v: Vec<(String, Sx)> = Vec::new();
@@ -23,10 +48,10 @@ pub fn sigma2(env: &Env) -> Vec<(String, Sx)> {
             add(&format!("op{op}"), cond(op, &[val]));
         }
     }
-    add("op51", cond(51, &[Sx::atom(&PH2), Sx::int(3)]));
-    add("op51", cond(51, &[Sx::atom(&PH1), Sx::int(5)]));
-    add("op51", cond(51, &[Sx::atom(&PH2), Sx::int(6)]));
-    add("op51", cond(51, &[Sx::atom(&PH2), Sx::int(3), Sx::list(&[Sx::atom(&H1)])]));
+    add("op51", cond(51, &[Sx::atom(&PH2), Sx::int(ids.b_amount)]));
+    add("op51", cond(51, &[Sx::atom(&PH1), Sx::int(a_amount)]));
+    add("op51", cond(51, &[Sx::atom(&PH2), Sx::int(a_amount.saturating_add(1))]));
+    add("op51", cond(51, &[Sx::atom(&PH2), Sx::int(ids.b_amount), Sx::list(&[Sx::atom(&H1)])]));
     for val in [Sx::nil(), Sx::int(2), Sx::int(3), Sx::int(u64::MAX)] {
         add("op52", cond(52, &[val]));
     }
@@ -51,8 +76,8 @@ pub fn sigma2(env: &Env) -> Vec<(String, Sx)> {
     add("op71", cond(71, &[Sx::atom(&a_id)]));
     add("op72", cond(72, &[Sx::atom(&PH1)]));
     add("op72", cond(72, &[Sx::atom(&PH2)]));
-    add("op73", cond(73, &[Sx::int(5)]));
-    add("op73", cond(73, &[Sx::int(3)]));
+    add("op73", cond(73, &[Sx::int(a_amount)]));
+    add("op73", cond(73, &[Sx::int(a_amount ^ 6)]));
     for op in 43u8..=50 {
         add(&format!("op{op}"), cond(op, &[pk.clone(), Sx::atom(b"m")]));
     }
@@ -67,10 +92,10 @@ pub fn sigma2(env: &Env) -> Vec<(String, Sx)> {
     add("op66", cond(66, &[Sx::int(0b010_111), msg.clone(), Sx::atom(&b_id)]));
     add("op66", cond(66, &[Sx::int(0b010_111), msg.clone(), Sx::atom(&c_id)]));
     add("op66", cond(66, &[Sx::int(0b111_100), msg.clone(), Sx::atom(&a_id)])); // to a coin whose parent is A
-    add("op66", cond(66, &[Sx::int(0b111_011), msg.clone(), Sx::atom(&PH2), Sx::int(3)]));
+    add("op66", cond(66, &[Sx::int(0b111_011), msg.clone(), Sx::atom(&PH2), Sx::int(ids.b_amount)]));
     add("op66", cond(66, &[Sx::int(0b000_000), msg.clone()]));
     add("op66", cond(66, &[Sx::int(0b100_010), msg.clone(), Sx::atom(&PH1)]));
-    add("op66", cond(66, &[Sx::int(0b001_001), msg.clone(), Sx::int(5)]));
+    add("op66", cond(66, &[Sx::int(0b001_001), msg.clone(), Sx::int(ids.c.2)]));
     // receives, as emitted by the peer: from A by puzzle / by coin id, self described variously
     add("op67", cond(67, &[Sx::int(0b010_111), msg.clone(), Sx::atom(&PH1)]));
     add("op67", cond(67, &[Sx::int(0b111_100), msg.clone(), Sx::atom(&a_id)]));
@@ -78,7 +103,7 @@ pub fn sigma2(env: &Env) -> Vec<(String, Sx)> {
     add("op67", cond(67, &[Sx::int(0b000_000), msg.clone()]));
     add("op67", cond(67, &[Sx::int(0b100_010), msg.clone(), Sx::atom(&P1)]));
     add("op67", cond(67, &[Sx::int(0b100_010), msg.clone(), Sx::atom(&P2)]));
-    add("op67", cond(67, &[Sx::int(0b001_001), msg.clone(), Sx::int(5)]));
+    add("op67", cond(67, &[Sx::int(0b001_001), msg.clone(), Sx::int(a_amount)]));
     add("op67", cond(67, &[Sx::int(0b010_111), Sx::atom(b"other"), Sx::atom(&PH1)]));
     v
 }
@@ -87,6 +112,7 @@ pub fn sigma2(env: &Env) -> Vec<(String, Sx)> {
 /// letters whose acceptance depends on the strictness flags (extra argument, non-nil argument
 /// terminator, unknown / two-byte / SOFTFORK opcodes, hint shapes)
 pub fn strict_sensitive(env: &Env) -> Vec<(String, Sx)> {
+    use crate::drive::PH2;
     let pk = Sx::Atom(env.valid_keys.iter().next().unwrap().clone());
     let mut v: Vec<(String, Sx)> = Vec::new();
     let mut add = |n: &str, s: Sx| v.push((n.to_string(), s));
